@@ -228,7 +228,7 @@ def convert_scientific_to_float(value: str) -> float | str:
     float | string
         return float if value was scientific notation string, else turn original value
     """
-    return float(value) if rp.number_scientific.match(value) else value
+    return float(value) if rp.number_scientific.fullmatch(value) else value
 
 
 def sanitize_parameter_list(parameter_list: list[str | float]) -> list[str | float]:
